@@ -93,7 +93,7 @@ func JsonTables(v *Val) (ftab, ctab, ptab string) {
 				pm[Hex(s)] = cidParseEntry(s)
 			}
 		case KString:
-			if len(x.S) <= 128 {
+			if len(x.S) <= 4096 {
 				pm[Hex(x.S)] = cidParseEntry(x.S)
 			}
 		}
@@ -135,7 +135,7 @@ func JsonParseTable(input []byte) string {
 			if err != nil {
 				return nil
 			}
-			if tk.Type == tok.TString && len(tk.Str) <= 256 {
+			if tk.Type == tok.TString && len(tk.Str) <= 4096 {
 				if _, ok := pm[Hex(tk.Str)]; !ok {
 					pm[Hex(tk.Str)] = cidParseEntry(tk.Str)
 				}
